@@ -189,10 +189,28 @@ PLAN['C06'] = flow_plan(
     'Non-trivial: >= 3 breadth-first levels and a node with >= 2 donors.',
     ['c06.edges_checked', 'c06.states_checked', 'final.multi', 'final.single', 'seq.mst-carve+none', 'seq.mst-basic+none'])
 
+# accumulate() is a const query that may be called from several threads on one routed graph: h_conc runs concurrent calls
+# (asan: results compared with the sequential ones; tsan: any report is a violation)
+_c03q, _c03t = PLAN['C03']['quick'], PLAN['C03']['thorough']
+PLAN['C03']['quick'] = lambda seed: _c03q(seed) + runs('h_conc', ['raster_queen'], 'asan', 1, 12, ['--x-repeats', '1'], prop='C03', case_timeout=300) \
+                                    + runs('h_conc', ['trimesh'], 'tsan', 1, 8, ['--x-delays', '0', '--x-repeats', '1'], prop='C03', case_timeout=300)
+PLAN['C03']['thorough'] = lambda seed: _c03t(seed) + runs('h_conc', ['raster_queen', 'trimesh'], 'asan', 1, 150, prop='C03', case_timeout=600) \
+                                       + runs('h_conc', ['raster_queen', 'trimesh'], 'tsan', 1, 60, ['--x-delays', '0'], prop='C03', case_timeout=900)
+PLAN['C03']['rule'] += (' Plus concurrent accumulate() calls from two threads with different sources on one routed graph (h_conc, ASan and TSan '
+                        'flavours): each must return the bits of the sequential call.')
+PLAN['C03']['floor'] = PLAN['C03']['floor'] + ['c03.concurrent_accumulate_rounds']
+PLAN['C03']['max_parallel'] = 12
+
+# the multi-threaded single router is part of C04's quantifier: ThreadSanitizer run of the parallel router workload
+_c04q, _c04t = PLAN['C04']['quick'], PLAN['C04']['thorough']
+PLAN['C04']['quick'] = lambda seed: _c04q(seed) + runs('h_conc', ['raster_rook_nc'], 'tsan', 1, 10, ['--x-delays', '0', '--x-repeats', '1'], prop='C04', case_timeout=300)
+PLAN['C04']['thorough'] = lambda seed: _c04t(seed) + runs('h_conc', ['raster_queen', 'raster_rook_nc', 'trimesh'], 'tsan', 1, 60, ['--x-delays', '0'], prop='C04', case_timeout=900)
+PLAN['C04']['rule'] += ' Plus a ThreadSanitizer run of the multi-threaded router workload (h_conc): a race while routing is a violation.'
+
 # the donor table is also filled by the multi-threaded router: a ThreadSanitizer run of the parallel workload belongs to C06
 _c06q, _c06t = PLAN['C06']['quick'], PLAN['C06']['thorough']
-PLAN['C06']['quick'] = lambda seed: _c06q(seed) + runs('h_conc', ['raster_queen'], 'tsan', 1, 10, ['--x-delays', '0', '--x-repeats', '1'], prop='C10', case_timeout=300)
-PLAN['C06']['thorough'] = lambda seed: _c06t(seed) + runs('h_conc', ['raster_queen', 'trimesh'], 'tsan', 1, 80, ['--x-delays', '0'], prop='C10', case_timeout=900)
+PLAN['C06']['quick'] = lambda seed: _c06q(seed) + runs('h_conc', ['raster_queen'], 'tsan', 1, 10, ['--x-delays', '0', '--x-repeats', '1'], prop='C06', case_timeout=300)
+PLAN['C06']['thorough'] = lambda seed: _c06t(seed) + runs('h_conc', ['raster_queen', 'trimesh'], 'tsan', 1, 80, ['--x-delays', '0'], prop='C06', case_timeout=900)
 PLAN['C06']['rule'] += ' Plus a ThreadSanitizer run of the multi-threaded router workload (h_conc): a race on the donor / receiver tables is a violation.'
 
 PLAN['C15'] = {
